@@ -102,6 +102,9 @@ PPL::Grid::Status::ascii_load(std::istream& s) {
   if (positive) {
     set_empty();
   }
+  else {
+    reset_empty();
+  }
 
   if (!get_field(s, consys_min, positive)) {
     return false;
